@@ -543,10 +543,12 @@ pub fn random_schema(rng: &mut Rng, k: &SchemaKnobs) -> ASchema {
     };
     // interfaces first (implementors copy their fields)
     let mut iface_fields: BTreeMap<String, Vec<AField>> = BTreeMap::new();
+    // field names are disjoint across interfaces, so that one object can implement all of them
+    // (every interface gets at least one implementor unless `empty_abstract` is wanted)
+    let mut iface_taken: Vec<String> = vec![];
     for i in &ifaces {
-        let mut taken = vec![];
         let (a, b) = (rng.range(1, 3), rng.range(0, 1));
-        let fs = gen_fields(rng, a, b, &mut taken);
+        let fs = gen_fields(rng, a, b, &mut iface_taken);
         iface_fields.insert(i.clone(), fs.clone());
         types.push(AType::Interface { name: i.clone(), fields: fs });
     }
